@@ -108,12 +108,16 @@ func runCase(rt *rapid.T, st *stats.Collector) {
 				st.Class("redraw-undecided-" + o.label())
 				continue
 			}
-			if reg := region(o, r.t, exp); reg != "" && kf.Listed(reg) {
-				st.Excluded(reg)
-				exp = skip
-				continue
+			for _, reg := range regions(o, r.t, next) {
+				if kf.Listed(reg) {
+					st.Excluded(reg)
+					exp = skip
+					break
+				}
 			}
-			break
+			if exp != skip {
+				break
+			}
 		}
 		if exp == skip {
 			continue
@@ -177,40 +181,128 @@ func rewriting(o op, t *table) bool {
 	return false
 }
 
-// Finding ids (notes/C21.md, notes/C21.findings.json).
+// Finding ids (notes/C21.md, notes/C21.findings.json). While an id is listed as known, the
+// operations of its region are not generated (counted in excluded_known); the replay witnesses
+// re-confirm each finding.
 const (
-	fPkOrdinals   = "C21-pk-ordinals-shared"       // in-place column change on a table with a primary key corrupts the key ordinals of older copies of the schema; later statements panic
-	fDropUniqCol  = "C21-drop-unique-column-no-pk" // DROP COLUMN of a member of a UNIQUE index on a table without primary key panics
-	fDropPkColumn = "C21-drop-pk-column"           // DROP COLUMN of a member of the primary key panics
+	fPkOrdinals   = "C21-pk-ordinals-shared"         // in-place change of a primary-key column / ADD COLUMN before one corrupts the key ordinals of older schema copies; later statements panic
+	fDropUniqCol  = "C21-drop-unique-column-no-pk"   // DROP COLUMN of a member of a UNIQUE index on a table without primary key panics
+	fDropPkColumn = "C21-drop-pk-column"             // DROP COLUMN of a member of the primary key panics
+	fRewriteIdx   = "C21-rewrite-index-exprs"        // MODIFY/CHANGE that rewrites the table: a renamed column leaves its indexes, a changed type is not propagated to them
+	fAddColIdx    = "C21-add-column-index-positions" // ADD COLUMN before an indexed column: the index keeps reading the old position for new rows
+	fAddUnique    = "C21-add-unique-key-schema"      // ADD UNIQUE over columns that are not the table's leading columns checks the key values against the wrong column types
+	fPkOrder      = "C21-rename-pk-column-order"     // renaming a non-first primary-key column moves it to the front of the key
+	fStaleIdxTbl  = "C21-index-pk-suffix-stale"      // a rewrite that moves a primary-key column leaves the secondary indexes reading the key from the old position
+	fRenameTbl    = "C21-rename-table-index-exprs"   // RENAME TABLE renumbers the index expressions 0,1,.. instead of keeping the column positions
+	fEmptyString  = "C21-empty-string-to-number"     // MODIFY of a VARCHAR column holding '' to a numeric type succeeds and stores 0
 )
 
-// region names the known-finding region an operation falls into ("" if none).
-func region(o op, t *table, exp expect) string {
+func pkPositions(t *table) string {
+	var out []string
+	for _, c := range t.pk {
+		out = append(out, fmt.Sprint(t.colIdx(c)))
+	}
+	return strings.Join(out, ",")
+}
+
+func inAnyIndex(t *table, col string) bool {
+	for _, ix := range t.idx {
+		for _, c := range ix.cols {
+			if c == col {
+				return true
+			}
+		}
+	}
+	return false
+}
+
+// regions names the known-finding regions an operation falls into. next is the table the
+// reference model expects after the operation (nil when it must fail).
+func regions(o op, t *table, next *table) []string {
+	var out []string
+	pkMoves := next != nil && len(t.pk) > 0 && len(next.pk) > 0 && pkPositions(t) != pkPositions(next)
 	switch x := o.(type) {
 	case opDropColumn:
 		if t.inPK(x.name) {
-			return fDropPkColumn
+			out = append(out, fDropPkColumn)
+		} else if len(t.pk) == 0 && t.inUnique(x.name) {
+			out = append(out, fDropUniqCol)
 		}
-		if len(t.pk) == 0 {
-			for _, ix := range t.idx {
-				if ix.unique {
-					for _, c := range ix.cols {
-						if c == x.name {
-							return fDropUniqCol
-						}
-					}
+		if pkMoves && len(t.idx) > 0 {
+			out = append(out, fStaleIdxTbl)
+		}
+	case opAddColumn:
+		at := len(t.cols)
+		if next != nil {
+			at = next.colIdx(x.col.name)
+		}
+		if pkMoves {
+			out = append(out, fPkOrdinals)
+		}
+		for _, ix := range t.idx {
+			for _, c := range ix.cols {
+				if t.colIdx(c) >= at {
+					out = append(out, fAddColIdx)
+				}
+			}
+		}
+		if pkMoves && len(t.idx) > 0 {
+			out = append(out, fStaleIdxTbl)
+		}
+	case opModify:
+		at := t.colIdx(x.name)
+		if at < 0 {
+			break
+		}
+		old := t.cols[at]
+		moved := next != nil && next.colIdx(x.col.name) != at
+		rewritten := moved || !old.notNull && x.col.notNull
+		if t.inPK(x.name) && !rewritten {
+			out = append(out, fPkOrdinals)
+		}
+		if t.inPK(x.name) && x.col.name != x.name && t.pk[0] != x.name {
+			out = append(out, fPkOrder)
+		}
+		if rewritten && inAnyIndex(t, x.name) && (x.col.name != x.name || x.col.typ.text() != old.typ.text()) {
+			out = append(out, fRewriteIdx)
+		}
+		if pkMoves && len(t.idx) > 0 {
+			out = append(out, fStaleIdxTbl)
+		}
+		if x.col.typ.k != kStr {
+			for _, r := range t.rows {
+				if r[at].isZeroLenStr() {
+					out = append(out, fEmptyString)
+					break
+				}
+			}
+		}
+	case opRenameColumn:
+		if t.inPK(x.from) {
+			out = append(out, fPkOrdinals)
+			if t.pk[0] != x.from {
+				out = append(out, fPkOrder)
+			}
+		}
+	case opAddIndex:
+		if x.ix.unique {
+			for i, c := range x.ix.cols {
+				if t.colIdx(c) != i {
+					out = append(out, fAddUnique)
+					break
+				}
+			}
+		}
+	case opRenameTable:
+		for _, ix := range t.idx {
+			for i, c := range ix.cols {
+				if t.colIdx(c) != i {
+					out = append(out, fRenameTbl)
 				}
 			}
 		}
 	}
-	// in-place add / drop / modify of a column while the table has a primary key
-	if len(t.pk) > 0 {
-		switch o.(type) {
-		case opAddColumn, opDropColumn, opModify, opRenameColumn:
-			return fPkOrdinals
-		}
-	}
-	return ""
+	return out
 }
 
 // ---------------------------------------------------------------------------------------
